@@ -125,6 +125,15 @@ def with_timeout(seconds, fn, *args):
         signal.signal(signal.SIGALRM, old)
 
 
+def _rss():
+    """resident set size of this process in bytes (0 if unknown)"""
+    try:
+        with open("/proc/self/statm") as fp:
+            return int(fp.read().split()[1]) * os.sysconf("SC_PAGE_SIZE")
+    except Exception:  # noqa
+        return 0
+
+
 def classify_exc(exc):
     """Outcome classes compared between model and implementation."""
     if isinstance(exc, CaseTimeout):
@@ -439,12 +448,21 @@ class Check:
             return None
 
     def safe_impl(self, case):
+        rss0 = _rss()
         try:
             return with_timeout(self.case_timeout, self.impl_run, case)
         except CaseTimeout:
             pass
         # a case that overran its budget is run once more with a generous one before it counts as a hang: the
-        # budget is wall-clock time and the machine may be busy with other checks
+        # budget is wall-clock time and the machine may be busy with other checks.  Not so when the overrun cannot be
+        # blamed on load: the process grew by more than 1 GiB meanwhile (a loop that allocates without bound would
+        # exhaust the machine during a long second attempt), or the machine is not busy at all.
+        try:
+            busy = os.getloadavg()[0] > 0.5 * (os.cpu_count() or 1)
+        except OSError:
+            busy = True
+        if _rss() - rss0 > (1 << 30) or not busy:
+            return [-3]
         try:
             return with_timeout(max(10 * self.case_timeout, 60.0), self.impl_run, case)
         except CaseTimeout:
@@ -454,6 +472,9 @@ class Check:
         cur = case
         improved = True
         rounds = 0
+        if sig == "hang":
+            # every candidate would have to run into the time limit again: the case is reported as found
+            return cur
         while improved and rounds < 200:
             improved = False
             rounds += 1
